@@ -135,6 +135,45 @@ pub mod fasta {
         }
     }
 
+    /// start offset of the first non-blank line at or after the line start i; |f| if there is none
+    pub open spec fn first_nonblank(f: Seq<u8>, i: int) -> int
+        decreases f.len() - i via first_nonblank_dec
+    {
+        if i < 0 || i >= f.len() { f.len() as int } else {
+            let k = nl(f, i);
+            if blank(f.subrange(i, k)) { if k < f.len() { first_nonblank(f, k + 1) } else { f.len() as int } } else { i }
+        }
+    }
+    #[via_fn]
+    proof fn first_nonblank_dec(f: Seq<u8>, i: int) { if 0 <= i <= f.len() { lemma_nl_bounds(f, i); } }
+
+    /// a non-blank beginning of a line makes the line non-blank: the first non-blank line starts here
+    pub proof fn lemma_fnb_here(f: Seq<u8>, i: int, m: int)
+        requires 0 <= i, 1 <= m, i + m <= nl(f, i), i + m <= f.len(), !blank(f.subrange(i, i + m))
+        ensures first_nonblank(f, i) == i
+    {
+        lemma_nl_bounds(f, i);
+        let k = nl(f, i);
+        let piece = f.subrange(i, i + m);
+        let line = f.subrange(i, k);
+        assert(line.len() >= m);
+        if blank(line) {
+            // line is empty or [CR]; then its prefix of length m >= 1 is the whole line
+            assert(line.len() <= 1);
+            assert(piece =~= line);
+        }
+    }
+    /// a complete blank line is skipped
+    pub proof fn lemma_fnb_skip(f: Seq<u8>, i: int)
+        requires 0 <= i < f.len(), nl(f, i) < f.len(), blank(f.subrange(i, nl(f, i)))
+        ensures first_nonblank(f, i) == first_nonblank(f, nl(f, i) + 1)
+    { }
+    /// a blank unterminated rest
+    pub proof fn lemma_fnb_tail(f: Seq<u8>, i: int)
+        requires 0 <= i <= f.len(), nl(f, i) == f.len(), blank(f.subrange(i, f.len() as int))
+        ensures first_nonblank(f, i) == f.len()
+    { }
+
     pub proof fn lemma_lfs_bounds(b: Seq<u8>, i: int, j: int)
         requires 0 <= i <= j <= b.len()
         ensures lfs(b, i, j).len() <= j - i,
@@ -327,6 +366,152 @@ pub mod fasta {
                 if x + 1 < b2.len() { assert(b_old[x + c + 1] == b2[x + 1]); }
             }
         }
+//@end
+
+    /// nothing has been read yet
+    spec fn fresh(&self) -> bool { self.b().len() == 0 && self.base() == 0 && self.clean() }
+
+//@fn fasta::Reader::first_byte ret=r tags=C01,C03,C05,C06,C14,C17 r12=fill_buf
+//@spec
+        requires
+            old(self).wf0(), old(self).buf_reader.cap() >= 2, old(self).base() == 0,
+        ensures
+            [C06,C14|fasta.first_byte.frame] final(self).wf0() && final(self).f() == old(self).f() && final(self).buf_policy == old(self).buf_policy
+                && final(self).buf_reader.cap() == old(self).buf_reader.cap() && final(self).position == old(self).position
+                && final(self).state == old(self).state && final(self).buf_pos == old(self).buf_pos && final(self).search_pos == old(self).search_pos,
+            [C01,C03,C05,C17|fasta.first_byte.found] r matches Ok(Some(t)) ==> final(self).buf_reader.errs() == old(self).buf_reader.errs()
+                && t.2 < final(self).b().len() && final(self).b()[t.2 as int] == t.3 && final(self).filled() && t.1 == final(self).base()
+                && (old(self).fresh() ==> final(self).base() + t.2 == first_nonblank(final(self).f(), 0)
+                        && t.0 == true_line(final(self).f(), final(self).base() + t.2)),
+            [C01|fasta.first_byte.empty] r matches Ok(None) ==> final(self).buf_reader.errs() == old(self).buf_reader.errs()
+                && (old(self).fresh() ==> first_nonblank(final(self).f(), 0) == final(self).f().len()),
+            [C14|fasta.first_byte.err] r matches Err(e) ==> (e matches Error::Io(x) && final(self).buf_reader.errs() == old(self).buf_reader.errs().push(x)),
+//@loop 0 kw=while
+            invariant
+                [C06,C14|fasta.first_byte.outer.frame] self.wf0() && self.f() == old(self).f() && self.buf_policy == old(self).buf_policy
+                    && self.buf_reader.cap() == old(self).buf_reader.cap() && self.position == old(self).position
+                    && self.state == old(self).state && self.buf_pos == old(self).buf_pos && self.search_pos == old(self).search_pos
+                    && self.buf_reader.errs() == old(self).buf_reader.errs() && self.buf_reader.cap() >= 2
+                    && consumed == self.base() && line_num <= self.base() && (self.b().len() > 0 ==> self.base() + self.b().len() <= self.f().len()),
+                [C01,C03,C05,C17|fasta.first_byte.outer.skipped_blank_lines] old(self).fresh() ==> {
+                    &&& self.base() <= self.f().len()
+                    &&& first_nonblank(self.f(), 0) == first_nonblank(self.f(), self.base())
+                    &&& line_num == count_lf(self.f(), self.base())
+                    &&& self.b().len() <= 1 && blank(self.b()) && nl(self.b(), 0) == self.b().len()
+                },
+            decreases
+                (if self.base() + self.b().len() <= self.f().len() { self.f().len() - self.base() - self.b().len() } else { 0 }),
+//@closure 0 params="b: &u8" ret="(r: bool)"
+            ensures r == (*b == 10u8)
+//@loop 1 r8=vx_sp
+            invariant
+                [C06,C14|fasta.first_byte.inner.frame] self.wf0() && self.f() == old(self).f() && self.buf_policy == old(self).buf_policy
+                    && self.buf_reader.cap() == old(self).buf_reader.cap() && self.position == old(self).position
+                    && self.state == old(self).state && self.buf_pos == old(self).buf_pos && self.search_pos == old(self).search_pos
+                    && self.buf_reader.errs() == old(self).buf_reader.errs() && self.buf_reader.cap() >= 2 && self.filled()
+                    && self.b().len() > 0 && consumed == self.base() && self.base() + self.b().len() <= self.f().len(),
+                !split_done(&vx_sp) ==> line_num <= self.base() + pos,
+                split_done(&vx_sp) ==> line_num <= self.base() + self.b().len() - last_line_len + 1 && 1 <= line_num,
+                decides_eq(split_pred(&vx_sp), 10u8),
+                !split_done(&vx_sp) ==> pos <= self.b().len() && split_rest(&vx_sp) == self.b().subrange(pos as int, self.b().len() as int),
+                split_done(&vx_sp) ==> pos == self.b().len() + 1 && last_line_len <= self.b().len(),
+                [C01,C03,C05,C17|fasta.first_byte.inner.skipped_blank_lines] old(self).fresh() ==> {
+                    &&& (!split_done(&vx_sp) ==> first_nonblank(self.f(), 0) == first_nonblank(self.f(), self.base() + pos)
+                            && line_num == count_lf(self.f(), self.base() + pos))
+                    &&& (split_done(&vx_sp) ==> ({
+                            let lp = self.b().len() - last_line_len;
+                            &&& first_nonblank(self.f(), 0) == first_nonblank(self.f(), self.base() + lp)
+                            &&& line_num == count_lf(self.f(), self.base() + lp) + 1
+                            &&& nl(self.b(), lp) == self.b().len() && blank(self.b().subrange(lp, self.b().len() as int))
+                        }))
+                },
+            ensures
+                pos == self.b().len() + 1 && last_line_len <= self.b().len() && 1 <= line_num
+                    && line_num <= self.base() + self.b().len() - last_line_len + 1 && self.base() + self.b().len() <= self.f().len(),
+                [C01,C03,C05,C17|fasta.first_byte.inner.exit] old(self).fresh() ==> ({
+                            let lp = self.b().len() - last_line_len;
+                            &&& first_nonblank(self.f(), 0) == first_nonblank(self.f(), self.base() + lp)
+                            &&& line_num == count_lf(self.f(), self.base() + lp) + 1
+                            &&& nl(self.b(), lp) == self.b().len() && blank(self.b().subrange(lp, self.b().len() as int))
+                        }),
+            decreases (if split_done(&vx_sp) { 0int } else { split_rest(&vx_sp).len() as int + 1 }),
+//---pre
+            let ghost sr0 = split_rest(&vx_sp);
+            let ghost pos0 = pos as int;
+            let ghost done0 = split_done(&vx_sp);
+//@at depth=3 kw=line_num nth=0 expect="line_num \+= 1;"
+                proof {
+                    assert(!done0);
+                    let (ff, a, bb) = (self.f(), self.base(), self.b());
+                    let n = bb.len() as int;
+                    let k = line@.len() as int;
+                    lemma_split_step_first_of(split_pred(&vx_sp), 10u8, sr0, k);
+                    lemma_first_of_lf_is_nl(sr0, 0);
+                    lemma_nl_window(bb, pos0, n, pos0);
+                    lemma_nl_bounds(bb, pos0);
+                    lemma_nl_window(ff, a, a + n, a + pos0);
+                    lemma_nl_bounds(ff, a + pos0);
+                    assert(line@ =~= bb.subrange(pos0, pos0 + k));
+                    assert(line@ =~= ff.subrange(a + pos0, a + pos0 + k));
+                    lemma_count_lf_mono(ff, 0, a + pos0);
+                    if k < sr0.len() {
+                        assert(split_rest(&vx_sp) =~= bb.subrange(pos0 + k + 1, n));
+                        lemma_count_lf_line(ff, a + pos0);
+                        if blank(line@) { lemma_fnb_skip(ff, a + pos0); }
+                    }
+                    if !blank(line@) { lemma_fnb_here(ff, a + pos0, k); }
+                }
+//@at depth=2 kw=line_num nth=0 expect="line_num -= 1;"
+            proof {
+                let (ff, a, bb) = (self.f(), self.base(), self.b());
+                let lp = bb.len() - last_line_len;
+                lemma_nl_bounds(bb, lp);
+                assert(bb.subrange(lp, bb.len() as int).subrange(0, (bb.len() - lp) as int) =~= bb.subrange(lp, bb.len() as int));
+            }
+//@after /self\.buf_reader\.make_room\(\);/
+            proof {
+                let bb2 = self.b();
+                lemma_nl_bounds(bb2, 0);
+                if old(self).fresh() && bb2.len() > 0 { assert(bb2[0] != 10u8); }
+            }
+//@at tail expect="Ok\(None\)"
+        proof {
+            // the last refill read nothing: the (blank, unterminated) leftover is the rest of the input
+            if old(self).fresh() {
+                let (ff, a, bb) = (self.f(), self.base(), self.b());
+                if bb.len() > 0 {
+                    lemma_nl_window(ff, a, a + bb.len(), a);
+                    assert(ff.subrange(a, ff.len() as int) =~= bb);
+                }
+                lemma_nl_bounds(ff, a);
+                if a < ff.len() { lemma_fnb_tail(ff, a); }
+            }
+        }
+//@end
+
+//@fn fasta::Reader::init ret=r tags=C01,C03,C05,C06,C14,C17
+//@spec
+        requires
+            old(self).wf0(), old(self).buf_reader.cap() >= 2, old(self).state == State::New, old(self).base() == 0,
+        ensures
+            [C06,C14|fasta.init.frame] final(self).wf0() && final(self).f() == old(self).f() && final(self).buf_policy == old(self).buf_policy
+                && final(self).buf_reader.cap() == old(self).buf_reader.cap(),
+            [C01,C03,C05|fasta.init.first_record] r matches Ok(true) ==> final(self).buf_reader.errs() == old(self).buf_reader.errs()
+                && final(self).state == State::New && final(self).filled()
+                && final(self).buf_pos.start < final(self).b().len() && final(self).b()[final(self).buf_pos.start as int] == 62u8
+                && final(self).search_pos == final(self).buf_pos.start + 1 && final(self).buf_pos.seq_pos@ == old(self).buf_pos.seq_pos@
+                && (old(self).fresh() ==> final(self).base() + final(self).buf_pos.start == first_nonblank(final(self).f(), 0)
+                        && final(self).position.byte == first_nonblank(final(self).f(), 0)
+                        && final(self).position.line == true_line(final(self).f(), first_nonblank(final(self).f(), 0))),
+            [C01|fasta.init.empty] r matches Ok(false) ==> final(self).buf_reader.errs() == old(self).buf_reader.errs() && final(self).state == State::Finished
+                && (old(self).fresh() ==> first_nonblank(final(self).f(), 0) == final(self).f().len()),
+            [C01,C17,C14|fasta.init.err] r matches Err(e) ==> match e {
+                Error::Io(x) => final(self).buf_reader.errs() == old(self).buf_reader.errs().push(x) && final(self).state == State::New,
+                Error::InvalidStart { line, found } => final(self).buf_reader.errs() == old(self).buf_reader.errs() && final(self).state == State::Finished
+                    && (old(self).fresh() ==> ({ let s0 = first_nonblank(final(self).f(), 0);
+                            s0 < final(self).f().len() && final(self).f()[s0] != 62u8 && found == final(self).f()[s0] && line == true_line(final(self).f(), s0) })),
+                _ => false,
+            },
 //@end
 }
 
